@@ -231,7 +231,8 @@ def check_C02(tier, seed, t0):
 def check_C05(tier, seed, t0):
     cases, maxlen = budget(tier, (30000, 60), (400000, 80))
     names = C.vec_subset(lambda n: C.is_sv(n) or C.is_fcv(n))
-    parts = [interp_part('C05', 'vector_histories', vec_jobs(names, cases, maxlen), seed, VEC_RULES['C05'], False)]
+    multi = [n for n in C.VEC_MULTISTD if C.is_sv(n) or C.is_fcv(n)]  # the inline storage layout has separate pre-C++14 code
+    parts = [interp_part('C05', 'vector_histories', vec_jobs(names, cases, maxlen) + vec_jobs(multi, cases, maxlen, stds=('11', '14', '20')), seed, VEC_RULES['C05'], False)]
     parts.append(interp_part('C05', 'smallset_histories', ss_jobs([n for n, _ in C.SS_CONFIGS], cases, maxlen), seed,
                              'SmallSet tapes with merges/copies/swaps weighted up; per-set flag "never held more than N" (inherited through copy/move/swap, '
                              'cleared by merging with a set that lost it); oracle: zero allocator requests and zero malloc/new in every op window whose '
